@@ -75,6 +75,15 @@ open_("C17", "D37", "C17/remap-changed-log", [],
       "input: an authorship log listing a file whose name contains the text `\"base_commit_sha\":\"x\"` => try_remap_base_commit_sha_field / remap_note_content_for_target_commit rewrite the first textual occurrence, i.e. the path line, instead of the metadata field: the remapped note has a different file name and the old base",
       "c17.file_name_containing_base_commit_sha_field", ["path:json-field"], affects=["C05"])
 fixed("C17", "D40", "^fix: a path line consisting of a single quote", "arbitrary note-like text containing a line that is a single double-quote character panicked deserialize_from_string (slice 1..0 in parse_attestation_section)", "c17.single_quote_path_line")
+open_("C18", "D41", "C18/proxied-argv-differs", [],
+      "command line: `git st` with alias.st='status -s' => the argv recorded by the git stand-in for the proxied call is `status -s`, not the user's `st` (the alias expansion computed to choose hooks is re-emitted); outcome is the same because git would expand it identically",
+      "c18.alias_is_handed_to_git_expanded", ["proxied_alias_expansion"], affects=[])
+open_("C18", "D42", "C06/exit", ["C06/stdout", "C18/proxied-argv-differs"],
+      "command line: `git -- status` => plain git fails with `unknown option: --` (exit 129); through the proxy the top-level `--` is dropped and `status` runs (exit 0, status output)",
+      "c18.top_level_double_dash_is_swallowed", ["tmpl:--"], affects=["C06"])
+open_("C18", "D44", "C06/exit", ["C06/stdout", "C18/proxied-argv-differs"],
+      "command line: `git --version status -s` (likewise `-v ...`) => plain git runs `git version status -s` and fails with exit 129 (unknown switch); the proxy re-emits just `version`, drops every trailing argument and exits 0",
+      "c18.version_option_drops_trailing_arguments", ["version_with_trailing_args", "tmpl:--version status", "tmpl:-v log"], affects=["C06"])
 # ---------------------------------------------------------------- C02
 open_("C02", "D20", "C03/unsound-note@f.txt:12", [],
       "history: feature branch = [person replaces 2 lines of f.txt by 1; AI session S1 modifies line 5 of f.txt]; upstream inserts 2 AI lines after line 1 and then 5 human lines after line 5 of f.txt; `git rebase main` (no conflict) => the rewritten AI commit's note lists line 12 (text written by a person) as S1: the full rebase replay mis-places attributions when upstream changed the same file",
